@@ -192,12 +192,14 @@ class Inquiry(SCSICommand):
         "sat_product_rev_lvl": ("b", 32, 4),
     }
 
+    # offsets within the 20 byte DEVICE SIGNATURE field, the image of a register device to
+    # host FIS: 0 transport id, 2 status, 3 error, 4..6 lba, 7 device, 12 count (SAT-3 10.3.5)
     _ata_signature_bits = {
-        "sector_count": [0xFF, 0],
-        "lba_low": [0xFF, 1],
-        "lba_mid": [0xFF, 2],
-        "lba_high": [0xFF, 3],
-        "device": [0xFF, 4],
+        "sector_count": [0xFF, 12],
+        "lba_low": [0xFF, 4],
+        "lba_mid": [0xFF, 5],
+        "lba_high": [0xFF, 6],
+        "device": [0xFF, 7],
     }
 
     _ata_identify_bits = {
@@ -387,7 +389,7 @@ class Inquiry(SCSICommand):
     @classmethod
     def unmarshall_ata_information(cls, data):
         result = {}
-        _sig = data[36:41]
+        _sig = data[36:56]
         _identify = data[60:]
         convert.decode_bits(data, cls._ata_information_bits, result)
         _r = {}
